@@ -26,10 +26,10 @@ NTRACE = 4
 
 
 def consts(apis, n=1, kinds=("eof", "local_close"), fix=True, omit="none", modes=("blocking", "timed"), nopoll=(),
-           test_outside=False, **kw):
+           test_outside=False, role="server", wake_only_server=False, **kw):
     d = {"N": n, "Apis": set(apis), "Modes": set(modes), "LossKinds": set(kinds),
          "FixAccept": fix, "FixEvent": fix, "FixEnsure": fix, "FixProxy": fix, "Omit": omit,
-         "EventTestOutside": test_outside, "NoPoll": "@{%s}" % ", ".join('"%s"' % x for x in nopoll)}
+         "EventTestOutside": test_outside, "Role": role, "WakeOnlyServer": wake_only_server, "NoPoll": "@{%s}" % ", ".join('"%s"' % x for x in nopoll)}
     d.update(kw)
     return d
 
@@ -206,7 +206,12 @@ def run(c):
                  expect="NoStuck"),
              job("Shutdown", cfg_text(constants=consts(["exec_command", "get_pty"], n=1, test_outside=True), invariants=SAFETY),
                  "sensitivity: _event_pending tests `closed` before it takes Channel.lock (clear after close)",
-                 expect="NoStuck")]
+                 expect="NoStuck"),
+             job("Shutdown", cfg_text(constants=consts(["accept"], n=2, role="client", wake_only_server=True), invariants=SAFETY),
+                 "sensitivity: accept() waiters woken only `if self.server_mode`, client transport", expect="NoStuck"),
+             job("Shutdown", cfg_text(spec="FairSpec", constants=consts(["accept"], n=1 if quick else 2, role="client"),
+                                      invariants=SAFETY, properties=LIVE),
+                 "repaired loops, client role, accept: safety + liveness")]
     pred_f, pred_r = widen(g_f.cases()), widen(g_r.cases())
     if set(pred_f) != set(pred_r):
         raise Machinery("pinned and repaired models emit different case sets")
@@ -259,9 +264,11 @@ def run(c):
         sus = any("stuck" in pred_f[(1, api, m, kind, plan)] for m in modes)
         (suspects if sus else others).append((api, kind, plan, modes))
 
-    def case_of(api, mode, kind, plan, cls, n=1):
+    def case_of(api, mode, kind, plan, cls, n=1, role="server"):
         callers = [(api, mode)] * n
-        return {"id": (api, mode, kind, plan, cls, n), "fn": sd.run_case, "args": (callers, kind, plan, cls),
+        fn = sd.run_case if role == "server" else (lambda *a, D: sd.run_case(*a, D=D, role="client"))
+        return {"id": (api, mode, kind, plan, cls, n) + (() if role == "server" else (role,)), "fn": fn,
+                "args": (callers, kind, plan, cls),
                 "pred": (pred_f.get((1, api, mode, kind, plan)) if n == 1 else pred2_f.get((2, api, mode, kind, plan)),
                          pred_r.get((1, api, mode, kind, plan)) if n == 1 else None)}
 
@@ -304,6 +311,17 @@ def run(c):
         if not quick and cl != cls_for(api, i + 1):
             grp += [case_of(api, m, kind, plan, cls_for(api, i + 1)) for m in modes[:1]]
         tasks.append(grp)
+    # accept() on the CLIENT end (forwarded channels arrive through it): the wait and the wake-up are the same code
+    # in both roles, so the model's predictions for accept apply.  Fixed stratum: blocked before the loss x every
+    # loss kind x {no timeout, 60 s}; plus a call made after the loss
+    for kind in KINDS:
+        for mode in ("blocking", "timed"):
+            tasks.append([case_of("accept", mode, kind, "before", ("Transport", "SRT")[mode == "timed"], role="client")])
+        tasks.append([case_of("accept", "blocking", kind, "after", "Transport", role="client")])
+        if not quick:
+            for plan in ("at_pclose", "at_sockclose", "at_unlink"):
+                if realisable("accept", kind, plan):
+                    tasks.append([case_of("accept", "timed", kind, plan, "SRT", role="client")])
     # two concurrent accept callers (one notify for two waiters)
     for kind in KINDS:
         for plan in (["before"] if quick else ["before", "at_pclose", "after"]):
@@ -333,6 +351,7 @@ def run(c):
             callers = [("accept", rnd.choice(["blocking", "timed"]), rnd.choice(["before", "race", "after"]))
                        for _ in range(rnd.randint(1, 3))]
             cl = "Transport"
+            frole = rnd.choice(["server", "client"])
         elif r < 0.3:
             a = rnd.choice([x for x in apis if sd.family(x) in ("auth", "srtauth")])
             callers = [(a, rnd.choice(["blocking", "timed"]), rnd.choice(["before", "race", "after"]))]
@@ -345,8 +364,11 @@ def run(c):
                 callers.append((a, m, rnd.choice(["before", "race", "race", "after"])))
             cl = rnd.choice(["Transport", "SRT"])
         jit = [rnd.choice([0.0, 0.0005, 0.002, 0.005]) for _ in range(len(callers) + 1)]
+        kw_ = {"jitter": jit}
+        if callers[0][0] == "accept":
+            kw_["role"] = frole
         tasks.append([{"id": ("free", j, tuple(callers), cl), "fn": sd.run_case,
-                       "args": (callers, rnd.choice(KINDS), "free", cl), "kw": {"jitter": jit}, "pred": None}])
+                       "args": (callers, rnd.choice(KINDS), "free", cl), "kw": kw_, "pred": None}])
     for t in tasks:
         for case in t:
             if "kw" in case:
@@ -367,10 +389,12 @@ def run(c):
     not_est = 0
     matches = {"pinned": 0, "repaired": 0, "both": 0, "neither": 0}
     for case, obs in runner.kept:
-        batch.append({"events": [norm_event(e) for e in obs["events"]], "labels": labels_of(obs)})
+        batch.append({"events": [norm_event(e) for e in obs["events"]], "labels": labels_of(obs),
+                      "role": obs.get("role", "client")})
         meta.append((case, obs))
         for i, cl in enumerate(obs["callers"]):
-            key = (cl[0], cl[1], obs["kind"], obs["plan"] if obs["plan"] != "free" else cl[2], obs["cls"], len(obs["callers"]))
+            key = (cl[0], cl[1], obs["kind"], obs["plan"] if obs["plan"] != "free" else cl[2], obs["cls"], len(obs["callers"]),
+                   obs.get("role", "client"))
             c.case(key=key, sample=({"callers": obs["callers"], "kind": obs["kind"], "plan": obs["plan"], "class": obs["cls"],
                                      "results": obs["results"],
                                      "events": [[e["ev"], e.get("name") or e.get("kind") or e.get("w")] for e in obs["events"]]}
@@ -412,10 +436,11 @@ def run(c):
             what = "%s after the loss (%s) and %.0f s (re-run once with the doubled deadline) the transport is still active; callers %r -> %r" % (
                 obs["cls"], obs["kind"], obs["D"], obs["callers"], [r["how"] for r in obs["results"]])
         elif name == "P_returns":
-            key = "P_returns:%s:%s:%s" % (rest[0], rest[1], obs["kind"])
+            who = rest[0] + ("@client" if rest[0] == "accept" and rest[2] == "client" else "")
+            key = "P_returns:%s:%s:%s" % (who, rest[1], obs["kind"])
             what = "%s() %s the loss (%s; plan %s, %s, callers %r): the transport is inactive but the call has neither returned nor raised %.0f s later (re-run once with the doubled deadline)" % (
                 rest[0], {"before": "blocked before", "racing": "racing with", "after": "made after"}.get(rest[1], rest[1]),
-                obs["kind"], obs["plan"], obs["cls"], obs["callers"], obs["D"])
+                obs["kind"], obs["plan"], "%s, %s end" % (obs["cls"], obs.get("role", "client")), obs["callers"], obs["D"])
         else:
             key = "%s:%s:%s" % (name, ":".join(rest), obs["kind"])
             what = "%s %r in %s/%s (%s)" % (name, rest, obs["plan"], obs["kind"], obs["cls"])
